@@ -14,7 +14,7 @@ txt = ["### 7.4 Seeded changes: which checks catch which changes",
        "Fresh sub-agents were given only the text of one property and a scratch worktree of `/repo`",
        "(nothing from `/verif`) and asked for changes that break the property, still compile and pass the",
        "pinned suite, and need something specific to manifest; from the second round on they were also",
-       "told which ideas had been used before (six rounds, two changes per property and round). Every change below was confirmed with `tools/seed_eval.sh`",
+       "told which ideas had been used before (seven rounds, two changes per property and round). Every change below was confirmed with `tools/seed_eval.sh`",
        "in a scratch worktree (patch applies, 140/140 baseline tests pass with it, its demonstration fails",
        "with and passes without it) before it was kept under `/verif/seeded/<name>/` (patch.diff, the",
        "demonstration renamed to `*.go.txt`, README.md, meta.json). The checks were run against each",
@@ -40,6 +40,10 @@ txt += ["",
         "Two round-5 seeds were exact repeats (of `C15-D` and `C19-C`), three round-6 seeds too (of `C06-A`,",
         "`C05-A` and `C12-F`: sub-agents working on different properties converge on the same edit). Two seeds were written against code",
         "that a later `fix:` commit restructured (`C07-J`, both C09 seeds of round 4) and were ported by hand.",
+        "Three round-7 seeds repeated earlier ideas and were not kept a second time: the reader that stops once the",
+        "close notifier has seen the end of input came twice in that round (kept once, as a C14 seed), `Conn.Close`",
+        "waiting for the write lock repeats `C14-H`, and the Time era offset derived from its comment repeats",
+        "`C01-C` / `C02-F`; the checks that catch the kept ones catch these too.",
         "",
         "Not counted as violations, because the property does not decide the point (the checks stay",
         "silent on them, by design): a client that treats every 2xxx Result-Code in the CEA as success (C12",
@@ -59,7 +63,7 @@ txt += ["",
         "truncated headers, i.e. demand more than the property states.",
         "",
         "Seeds whose sub-agent was given another property than the one its change breaks are filed under",
-        "the property whose clause is broken or whose check sees them (`C06-E`, `C07-E`, `C16-G`, and several of rounds 5 and 6: the 'needs' column says so); the check of the property they",
+        "the property whose clause is broken or whose check sees them (`C06-E`, `C07-E`, `C16-G`, and several of rounds 5 to 7: the 'needs' column says so); the check of the property they",
         "were written for does not, and need not, see them.",
         ""]
 block = "\n".join(txt)
